@@ -420,7 +420,10 @@ EnumAllowed(e, N, cons) ==
                    ELSE OkSet({[N EXCEPT ![x].t = e.s]})
             [] e.op = "pi_set_data" ->
                    IF N[x].k # "pi" THEN NoneUnch(N)
-                   ELSE OkSet({[N EXCEPT ![x].t = IF e.b THEN e.s ELSE <<>>, ![x].d = e.b]})
+                   ELSE OkSet({[N EXCEPT ![x].t = IF e.b THEN e.s ELSE <<>>, ![x].d = e.b /\ e.s # <<>>]})
+            \* set_data(Some("")) means "no data"
+            [] e.op = "pi_set_target" -> IF N[x].k = "pi" THEN OkSet({[N EXCEPT ![x].ns = e.ns, ![x].ln = e.ln]}) ELSE NoneUnch(N)
+            [] e.op = "element_mut_set_name" -> IF N[x].k = "elem" THEN OkSet({[N EXCEPT ![x].ns = e.ns, ![x].ln = e.ln]}) ELSE NoneUnch(N)
             [] e.op = "attr_set_value" -> IF N[x].k = "attr" THEN OkSet({[N EXCEPT ![x].t = e.s]}) ELSE NoneUnch(N)
             [] e.op = "nsnode_set_namespace" -> IF N[x].k = "nsn" THEN OkSet({[N EXCEPT ![x].u = e.uri]}) ELSE NoneUnch(N)
             [] e.op = "text_content_set" -> TextContentSet(N, cons, x, e.s)
